@@ -157,6 +157,11 @@ def evTransferSent (st : State) (tid : Bytes) (src : Addr) (destChain destAddr :
 def evTransferReceived (st : State) (srcChain tid srcAddr : Bytes) (dst : Addr) (amount : Int) (data : Option Bytes) : Event :=
   ⟨st.self, [sym "interchain_transfer_received", .str srcChain, .bytes tid, .bytes srcAddr, .addr dst, i128v amount],
    .vec (.cons (optBytesSc data) .nil)⟩
+/-- what the recipient application of a transfer-with-data is handed (published by the harness's application as an event) -/
+def evAppExecuted (app : Addr) (srcChain msgId srcAddr data tid : Bytes) (token : Addr) (amount : Int) : Event :=
+  ⟨app, [sym "recv_exec"],
+   .vec (.cons (.str srcChain) (.cons (.str msgId) (.cons (.bytes srcAddr) (.cons (.bytes data) (.cons (.bytes tid)
+     (.cons (.addr token) (.cons (i128v amount) .nil)))))))⟩
 def tokenSc (token : Addr) (amount : Int) : ScVal :=
   .map (.cons (sym "address") (.addr token) (.cons (sym "amount") (i128v amount) .nil))
 def evGasPaid (st : State) (payload : Bytes) (spender gasToken : Addr) (gasAmount : Int) : Event :=
@@ -348,7 +353,12 @@ def execute (st : State) (srcChain msgId srcAddr payload : Bytes) : Except Err (
                     let ev := evTransferReceived st origin t.tokenId t.source recipient t.amount t.data
                     match t.data with
                     | none => .ok (st1, gwEvents ++ [ev])
-                    | some _ => if st1.executable recipient then .ok (st1, gwEvents ++ [ev]) else .error .executableCallFailed
+                    | some d =>
+                      -- `execute_with_interchain_token(origin chain, message id, source address, data, token id, token address, amount)`
+                      -- on the recipient; the harness's recipient application publishes exactly what it was handed
+                      if st1.executable recipient then
+                        .ok (st1, gwEvents ++ [ev, evAppExecuted recipient origin msgId t.source d t.tokenId addr t.amount])
+                      else .error .executableCallFailed
             | .deploy d =>
               if (st0.registry d.tokenId).isSome then .error .tokenAlreadyDeployed
               else if !validMetadata d.name d.symbol d.decimals then .error .invalidTokenMetaData
